@@ -23,6 +23,21 @@ Report(what, detail, devs) ==
   PrintT(<<"MISMATCH", ToJson([line |-> l, id |-> Rec[l].id, what |-> what, detail |-> detail, explained_by |-> devs])>>)
 
 Range(s) == {s[i] : i \in 1..Len(s)}
+
+(* Where the specification puts the "subscribed" marker: the stream set-up finishes at the first quiescent
+   point after the first lookup-relevant message (lookup reply or genuine NameOwnerChanged) was received.
+   Used for the specification's own consistency check (Sim without deviations = Ideal), which must not depend
+   on what the implementation did; an observed marker elsewhere is reported as drift, never as an error. *)
+Strip(evs) == SelectSeq(evs, LAMBDA e : e.k # "subscribed")
+Predicted(evs) ==
+  LET s == Strip(evs)
+      rel == {i \in 1..Len(s) : s[i].k \in {"reply", "noc"}}
+  IN IF rel = {} THEN s
+     ELSE LET f == CHOOSE i \in rel : \A j \in rel : i <= j
+              qs == {j \in (f + 1)..Len(s) : s[j].k = "q"}
+          IN IF qs = {} THEN s
+             ELSE LET q == CHOOSE j \in qs : \A k \in qs : j <= k
+                  IN SubSeq(s, 1, q - 1) \o <<[k |-> "subscribed"]>> \o SubSeq(s, q, Len(s))
 SigOf(evs, id) == CHOOSE e \in Range(evs) : e.k = "sig" /\ e.id = id
 
 Check(r) ==
@@ -34,7 +49,9 @@ Check(r) ==
       spurious == Range(got) \ Range(ideal)
       missing == Range(ideal) \ Range(got)
   IN
-  /\ (OT!Sim(r.mode, r.init, r.evs, {}) = ideal \/ Report("spec-selfcheck", "Sim without deviations differs from Ideal", {}))
+  /\ LET pe == Predicted(r.evs) IN
+       (OT!Sim(r.mode, r.init, pe, {}) = OT!Ideal(r.mode, r.init, pe) \/ Report("spec-selfcheck", "Sim without deviations differs from Ideal", {}))
+  /\ (r.evs = Predicted(r.evs) \/ PrintT(<<"DRIFT", ToJson([line |-> l, id |-> Rec[l].id, what |-> "stream set-up finished at an unexpected point"])>>))
   /\ IF got = ideal /\ r.extra = <<>> THEN TRUE
      ELSE IF r.extra # <<>> THEN Report("yield-foreign-message", r.extra, expl)
      ELSE IF spurious # {} THEN
